@@ -109,8 +109,10 @@ func (r *Reader) getTopics() []string {
 func (r *Reader) useSyncCommits() bool { return r.config.CommitInterval == 0 }
 
 func (r *Reader) unsubscribe() {
+	verifTrace("reader.unsubscribe", r, "begin")
 	r.cancel()
 	r.join.Wait()
+	verifTrace("reader.unsubscribe", r, "end")
 	// it would be interesting to drain the r.msgs channel at this point since
 	// it will contain buffered messages for partitions that may not be
 	// re-assigned to this reader in the next consumer group generation.
@@ -846,6 +848,7 @@ func (r *Reader) FetchMessage(ctx context.Context) (Message, error) {
 					r.offset = m.message.Offset + 1
 					r.lag = m.watermark - r.offset
 				}
+				verifTrace("reader.deliver", r, m.version, m.message.Topic, m.message.Partition, m.message.Offset, m.error)
 
 				r.mutex.Unlock()
 
@@ -1189,6 +1192,7 @@ func (r *Reader) start(offsetsByPartition map[topicPartition]int64) {
 	r.cancel() // always cancel the previous reader
 	r.cancel = cancel
 	r.version++
+	verifTrace("reader.start", r, r.version, offsetsByPartition)
 
 	r.join.Add(len(offsetsByPartition))
 	for key, offset := range offsetsByPartition {
